@@ -268,6 +268,8 @@ func (x *run) canonGraph() (string, *Failure) {
 				sb.WriteString("]")
 			case !a.Present:
 				sb.WriteString("-")
+			case len(a.Entries) == 0:
+				sb.WriteString("void") // a dependency on a named initializer: no instance
 			default:
 				render(a.Entries[0])
 			}
